@@ -118,6 +118,7 @@ class SBytes(object):
         self.mutable = mutable
         self.conc = conc        # tuple of ints when fully concrete
         self.watch = None       # callable(lo, hi) for reads-clauses
+        self.pending = None     # deferred read of the parent range (slices)
         self.base = base        # name of the uninterpreted function (inputs)
 
     @staticmethod
@@ -125,7 +126,15 @@ class SBytes(object):
         t = tuple(b)
         return SBytes(len(t), None, mutable, conc=t)
 
+    def commit(self):
+        """the content of this slice is inspected: report the read"""
+        if self.pending is not None:
+            f, self.pending = self.pending, None
+            f()
+
     def at(self, i):
+        if self.pending is not None:
+            self.commit()
         if self.conc is not None:
             if isinstance(i, int):
                 return self.conc[i]
